@@ -77,7 +77,7 @@ impl Server {
             self.violations.push(format!("{:?} is not a request any caller issued (torn or merged request lines)", String::from_utf8_lossy(&line))); } }
         if undelivered && self.in_list.is_none() && line != b"command_list_end" { self.violations.push(format!("request {:?} written before the previous reply was consumed", String::from_utf8_lossy(&line))); }
         if line.starts_with(b"password") {
-            match self.password.as_str() { "ACK" => self.send(b"ACK [3@0] {password} incorrect password\n"), "garbage" => self.send(b"\x01\x02\n"), "close" => self.closed = true, _ => self.send(b"OK\n") }
+            match self.password.as_str() { "ACK" => self.send(b"ACK [3@0] {password} incorrect password\n"), "listACK" => self.send(b"list_OK\nACK [3@1] {password} incorrect password\n"), "garbage" => self.send(b"\x01\x02\n"), "close" => self.closed = true, _ => self.send(b"OK\n") }
             return;
         }
         if line == b"command_list_ok_begin" { self.in_list = Some(Vec::new()); return; }
